@@ -171,7 +171,7 @@ def c01(res, tier, seed, replay):
         for cfgname in ("scalars", "none", "kitchen"):
             for cache, ctag in CACHES:
                 runs.append({"name": f"crud-{cfgname}-{ctag}-{s}",
-                             "args": ["-mode", "crud", "-config", cfgname, "-cache", cache, "-seed", seed * 100 + s,
+                             "args": ["-mode", "crud", "-repeat-upd", "-config", cfgname, "-cache", cache, "-seed", seed * 100 + s,
                                       "-hist", hist, "-batches", batches]})
         runs.append({"name": f"crud-scalars-mem-{s}",
                      "args": ["-mode", "crud", "-config", "scalars", "-mem", "-seed", seed * 100 + 50 + s,
@@ -275,13 +275,13 @@ def c04(res, tier, seed, replay):
         replay_run(res, replay)
         return
     rank_design(res, tier)
-    hist, batches, rank, nseeds = (2, 10, 5, 1) if tier == "quick" else (8, 25, 8, 4)
+    hist, batches, rank, nseeds = (3, 20, 4, 1) if tier == "quick" else (8, 25, 8, 4)
     runs = []
     for s in range(nseeds):
         for m in METRICS:
             for cache, ctag in (CACHES if tier == "thorough" else CACHES[::2]):
                 runs.append({"name": f"flat-{m}-{ctag}-{s}",
-                             "args": ["-mode", "cache", "-config", f"flat-{m}", "-cache", cache, "-seed", seed * 100 + s,
+                             "args": ["-mode", "cache", "-repeat-upd", "-config", f"flat-{m}", "-cache", cache, "-seed", seed * 100 + s,
                                       "-hist", hist, "-batches", batches, "-rank", rank, "-panel-every", 0]})
     # trained quantisers (product: >= 1000 points; learned binary threshold): the model does not recompute
     # the quantised distance, the warm and the cold answer are compared with each other (FlatPair)
@@ -291,7 +291,7 @@ def c04(res, tier, seed, replay):
                               "-batches", 8, "-rank", 3, "-panel-every", 0]})
         for cache, ctag in CACHES[::2]:
             runs.append({"name": f"flat-binlearn-{ctag}-{s}",
-                         "args": ["-mode", "cache", "-config", "flat-binlearn", "-cache", cache, "-seed", seed * 100 + 90 + s, "-hist", 3,
+                         "args": ["-mode", "cache", "-repeat-upd", "-config", "flat-binlearn", "-cache", cache, "-seed", seed * 100 + 90 + s, "-hist", 3,
                                   "-batches", 14, "-rank", 3, "-panel-every", 0]})
     results = drive_and_validate(res, runs)
     for r in results[:2]:
@@ -332,7 +332,7 @@ def c05(res, tier, seed, replay):
     for s in range(nseeds):
         for cache, ctag in CACHES[:2]:
             runs.append({"name": f"text-{ctag}-{s}",
-                         "args": ["-mode", "cache", "-config", "text", "-cache", cache, "-seed", seed * 100 + s,
+                         "args": ["-mode", "cache", "-repeat-upd", "-config", "text", "-cache", cache, "-seed", seed * 100 + s,
                                   "-hist", hist, "-batches", batches, "-rank", rank, "-panel-every", 0]})
         runs.append({"name": f"text-mem-{s}",
                      "args": ["-mode", "rank", "-config", "text", "-mem", "-seed", seed * 100 + 40 + s,
